@@ -44,7 +44,8 @@ class BatchRepeatLinearOperator(LinearOperator):
     ) -> Float[LinearOperator, "*batch N N"]:
         from linear_operator.operators.triangular_linear_operator import TriangularLinearOperator
 
-        res = self.base_linear_op.cholesky(upper=upper)._tensor
+        # (the factor of a structured base operator - diagonal, Kronecker, ... - is not a dense-backed triangular operator)
+        res = self.base_linear_op.cholesky(upper=upper).to_dense()
         res = res.repeat(*self.batch_repeat, 1, 1)
         return TriangularLinearOperator(res, upper=upper)
 
